@@ -28,7 +28,7 @@ ASSUMPTIONS = ["generator preconditions from the statement: pin cites followed b
                "expected court id = first exact-normalised citation_string in courts-db, else last prefix match"]
 FLOORS = {"quick": {"extractors_total": 6000, "minimal_forms_checked": 5500, "literal_forms_checked": 6000, "examples_checked": 700,
                     "form:full": 1200, "form:full_parallel": 300, "form:short": 500, "form:supra": 500,
-                    "form:id": 500, "form:journal": 500, "form:law": 400, "courts_checked": 300,
+                    "form:id": 500, "form:journal": 500, "form:law": 400, "form:antecedent_full": 500, "courts_checked": 300,
                     "pin_cites_checked": 1000},
           "thorough": {"minimal_forms_checked": 45000, "form:full": 80000, "form:full_parallel": 20000,
                        "form:short": 30000, "form:supra": 30000, "form:id": 30000, "form:journal": 30000,
@@ -398,6 +398,48 @@ def check_full(rng, rec):
         rec.sample(dict(text=s, span=c.span(), full_span=fs, pin=m.pin_cite, court=m.court))
 
 
+def check_antecedent_full(rng, rec):
+    """Full case citation introduced by a one-word antecedent instead of party names
+    ('Johnson, 515 U.S. 304, 310 (1995)', 'Nobelman at 332, 113 S.Ct. 2106')."""
+    from eyecite.models import FullCaseCitation
+    name = gen.word(rng)
+    rep = rng.choice(gen.DB.std)
+    vol, page = rng.randint(1, 999), rng.randint(1, 1500)
+    pre_pin = rng.random() < 0.3
+    post_pin = gen.pinshape(rng, page) if (not pre_pin and rng.random() < 0.6) else None
+    year = rng.randint(1800, gen.YEARNOW) if rng.random() < 0.6 else None
+    lead = rng.choice(["", "As in ", "Under ", "In "])
+    s = lead + name + (f" at {page + 3}" if pre_pin else "") + ", "
+    st = len(s)
+    s += f"{vol} {rep} {page}"
+    en = len(s)
+    if post_pin:
+        s += ", " + post_pin
+    if year:
+        s += f" ({year})"
+    ce = len(s)
+    s += rng.choice([". Further text.", "; the rest.", "."])
+    case = dict(text=s, form="antecedent_full")
+    rec.count("form:antecedent_full")
+    c = one(s, FullCaseCitation, rec, case)
+    if not c:
+        return
+    if c.span() != (st, en):
+        return fail(rec, "antefull_span", case, observed=c.span(), expected=(st, en))
+    if c.metadata.antecedent_guess != name:
+        return fail(rec, "antefull_antecedent", case, observed=c.metadata.antecedent_guess, expected=name)
+    exp_pin = f"at {page + 3}" if pre_pin else post_pin
+    if c.metadata.pin_cite != exp_pin:
+        return fail(rec, "antefull_pin_cite", case, observed=c.metadata.pin_cite, expected=exp_pin)
+    if exp_pin:
+        rec.count("pin_cites_checked")
+    if c.metadata.year != (str(year) if year else None) or c.year != year:
+        return fail(rec, "antefull_year", case, observed=(c.metadata.year, c.year), expected=year)
+    fs = c.full_span()
+    if fs[0] != len(lead) or not (ce <= fs[1] and s[ce:fs[1]].strip() == ""):
+        return fail(rec, "antefull_full_span", case, observed=fs, expected=(len(lead), ce))
+
+
 def one(s, cls, rec, case):
     from eyecite.models import ReferenceCitation
     cs = extract(s, rec, case)
@@ -662,6 +704,7 @@ def run_shard(spec, rec):
             check_id(rng, rec)
             check_journal(rng, rec)
             check_law(rng, rec)
+            check_antecedent_full(rng, rec)
 
 
 def replay(w, rec):
